@@ -11,7 +11,11 @@ def load_claimed():
     """a property is claimed when driver/props/<id>.py exists and defines MANIFEST"""
     out = {}
     for f in sorted((ROOT / "driver" / "props").glob("c[0-9]*.py")):
-        mod = importlib.import_module("props." + f.stem)
+        try:
+            mod = importlib.import_module("props." + f.stem)
+        except Exception as e:
+            print(f"mkmanifest: skipping {f.stem}: {e!r}", file=sys.stderr)
+            continue
         if getattr(mod, "MANIFEST", None):
             out[f.stem.upper()] = mod.MANIFEST
     return out
